@@ -238,6 +238,26 @@ int main(int argc, char** argv) {
         CHECK(omp_get_max_threads() >= 1);
         c.barrier();
     }, nullptr});
+    S.push_back({"omp region with two loops, implicit and explicit barriers, single", 2, "ok", [](int rank, std::vector<std::string>& msgs) {
+        mpi::communicator c; const int n = 53; std::vector<double> scratch(n, -1), out(n, 0); int singles = 0; std::vector<int> phase(64, 0);
+        #pragma omp parallel
+        {
+            #pragma omp for schedule(dynamic, 4)
+            for (int i = 0; i < n; i++) scratch[i] = 2.0 * i;
+            // implicit barrier: every scratch entry is written before anybody reads it
+            #pragma omp for schedule(static)
+            for (int i = 0; i < n; i++) out[i] += scratch[(i * 7) % n];
+            #pragma omp single
+            { singles++; }
+            phase[omp_get_thread_num()] = 1;
+            #pragma omp barrier
+            int seen = 0; for (int t = 0; t < omp_get_num_threads(); t++) seen += phase[t];
+            if (seen != omp_get_num_threads()) out[0] = -1e9;   // somebody passed the barrier before everybody arrived
+        }
+        for (int i = 0; i < n; i++) CHECK(out[i] == 2.0 * ((i * 7) % n));
+        CHECK(singles == 1);
+        c.barrier();
+    }, nullptr});
     S.push_back({"work() varies completion order", 4, "ok", [](int rank, std::vector<std::string>& msgs) {
         mpi::communicator c; shim::work(10); int v = rank; if (rank) c.send(0, 0, v); else for (int i = 1; i < 4; i++) { c.recv(mpi::any_source, 0, v); shim::note(v); }
     }, nullptr});
